@@ -185,6 +185,9 @@ fn satisfies(owe: &Owe, result: Option<&serde_json::Value>, code: Option<i64>) -
 // ------------------------------------------------------------------------------------------
 
 const DOC: &str = "proc main() {\n  var i: int;\n  i := 1;\n  printi(i);\n}\n";
+/// The same program with text beyond ASCII (2-, 3- and 4-byte characters): message bodies whose
+/// length in bytes differs from their length in characters.
+const DOC_U: &str = "proc main() { // größer → 😀\n  var i: int;\n  i := 1;\n  printi(i); // ✓ 𝄞\n}\n";
 
 pub fn random_script(rng: &mut Rng, max_len: usize) -> Vec<Step> {
     let mut s = Session::new();
@@ -232,7 +235,7 @@ pub fn random_script(rng: &mut Rng, max_len: usize) -> Vec<Step> {
             4 => {
                 s.unknown_request(*rng.pick(&["x", "workspace/symbol", "$/unknown", "textDocument/didOpen"]));
             }
-            5 | 6 => s.open(&uri, DOC),
+            5 | 6 => s.open(&uri, if rng.chance(300) { DOC_U } else { DOC }),
             7 => {
                 let e = Edit {
                     range: Some([2, 7, 2, 8]),
